@@ -193,6 +193,14 @@ func (eng *Engine) verifyFunctionSpec(fn *ssa.Function, modes Modes, spec map[st
 		n := g.havoc("fv_"+fv.Name(), "Ptr")
 		g.assume(fmt.Sprintf("(and (> (pref %s) 0) (< (pref %s) %s) (>= (poff %s) 0))", n, n, st0.Next, n))
 		top.preEnv[fv] = n
+		// the cells of different captured variables are different objects
+		for _, other := range fn.FreeVars {
+			if other == fv {
+				break
+			}
+			g.assume(fmt.Sprintf("(not (= (pref %s) (pref %s)))", n, top.preEnv[other]))
+		}
+		g.assume(fmt.Sprintf("(= (poff %s) 0)", n))
 	}
 	if modes.ReadOnly && ct == nil {
 		g.checkFrame = true
